@@ -70,7 +70,12 @@ def names_risky(p):
 
 
 def fingerprint(sc):
-    w = genrec.canonical_wire(scen.sd_wire(scen.scenario_to_sd(sc)))
+    try:
+        w = genrec.canonical_wire(scen.sd_wire(scen.scenario_to_sd(sc)))
+    except Inexact:
+        raise
+    except Exception as e:   # noqa: BLE001 -- malformed scenario object: fingerprint its raw description
+        w = ["malformed", repr(e)[:100], repr(sorted((str(k), str(v)) for k, v in sc.scenario_dict.items()))[:5000]]
     return hashlib.sha1(json.dumps(w).encode()).hexdigest()
 
 
@@ -194,6 +199,19 @@ def fingerprints_here(jobs):
     import nasim
     out = []
     for job in jobs:
+        try:
+            out.append(one_fingerprint(job))
+        except Inexact:
+            raise
+        except Exception as e:   # noqa: BLE001 -- the implementation raised: that is this job's outcome
+            out.append("raised " + type(e).__name__)
+    return out
+
+
+def one_fingerprint(job):
+    import nasim
+    out = []
+    for job in [job]:
         if job["kind"] == "gen":
             np.random.seed(job["seed"])
             sc = nasim.generate_scenario(**job["params"])
@@ -219,7 +237,7 @@ def fingerprints_here(jobs):
                     o, _ = env.reset()
                     h.update(o.tobytes())
             out.append(h.hexdigest())
-    return out
+    return out[0]
 
 
 # ---------------------------------------------------------------------------
@@ -234,6 +252,20 @@ def run(ctx, spec):
         p = random_params(rng, small=(tier == "quick"))
         if not names_risky(p):
             psets.append((f"random{i}", p))
+            # neighbouring parameter sets generated right afterwards in the same process: anything
+            # remembered from one generation (caches keyed on part of the parameters) shows up
+            if p["uniform"]:
+                # tables enumerated for one (services, processes) shape must not leak into the next shape
+                sq = dict(p, num_processes=p["num_services"], num_privescs=None, num_exploits=None)
+                other = dict(sq, num_processes=(1 if p["num_services"] > 1 else 2))
+                psets.append((f"random{i}~square", sq))
+                psets.append((f"random{i}~square~procs", other))
+            if rng.random() < 0.6:
+                for key in rng.sample(["num_processes", "num_services", "num_os"], 2):
+                    q = dict(p, num_exploits=None, num_privescs=None)
+                    q[key] = max(1, p[key] + rng.choice([-2, -1, 1, 2]))
+                    if not names_risky(q):
+                        psets.append((f"random{i}~{key}", q))
     seeds = list(range(sizes["seeds"]))
     if tier == "quick":
         psets = [x for x in psets if x[0] not in ("pocp-1-gen", "pocp-2-gen", "huge-gen")] + \
@@ -241,7 +273,8 @@ def run(ctx, spec):
     # ---- tie + per-scenario judgement
     cmds, meta = [], []
     for name, p in psets:
-        for s in (seeds if not name.startswith("pocp") else seeds[:1]):
+        more = list(range(len(seeds), sizes.get("seeds_small", len(seeds)))) if p["num_hosts"] <= 10 else []
+        for s in ((seeds + more) if not name.startswith("pocp") else seeds[:1]):
             try:
                 sc, oracle, calls = genrec.generate_recorded(p, s)
             except Inexact:
@@ -264,10 +297,28 @@ def run(ctx, spec):
     for (name, p, s, sc, nor), m in zip(meta, mouts):
         out["evaluations"] += 1
         stats["draws"] += nor
-        sd = scen.scenario_to_sd(sc)
-        iw = genrec.canonical_wire(scen.sd_wire(sd))
+        try:
+            sd = scen.scenario_to_sd(sc)
+            iw = genrec.canonical_wire(scen.sd_wire(sd))
+        except Inexact:
+            raise
+        except Exception as e:   # noqa: BLE001 -- the generated object is not even a readable scenario
+            out["violations"].append(dict(kind="generator-params", property=pid, failing_input_found=True, signature=None,
+                                          params=p, seed=s, name=name,
+                                          what=f"the generated scenario is malformed (reading it failed with {e!r})"[:300]))
+            continue
         distinct.add(hashlib.sha1(json.dumps(iw).encode()).hexdigest())
         where = dict(params=p, seed=s, name=name)
+        if pid == "C15":
+            # the property's clauses are judged on the implementation's scenario, whatever the tie says
+            try:
+                probs = judge_generated(p, sc)
+            except Exception as e:   # noqa: BLE001
+                probs = [f"scenario cannot be judged: {e!r}"[:200]]
+            if probs:
+                out["violations"].append(dict(kind="generator-params", property=pid, failing_input_found=True,
+                                              signature=None, what="generated scenario breaks the documented "
+                                              "invariants: " + "; ".join(probs[:4]), **where))
         if m[0] != 0:
             out["violations"].append(dict(kind="broken-correspondence", property=pid, failing_input_found=False,
                                           broken="generator correspondence (model does not finish on the recorded oracle)",
@@ -283,12 +334,10 @@ def run(ctx, spec):
                                           impl=str([iw[i] for i in diff])[:800], model=str([mw[i] for i in diff])[:800],
                                           **where))
             continue
-        if pid == "C15":
-            probs = judge_generated(p, sc)
-            if probs or not m[3]:
-                out["violations"].append(dict(kind="generator-params", property=pid, failing_input_found=True,
-                                              signature=None, what="generated scenario is not well formed: "
-                                              + "; ".join(probs[:4]) + ("" if m[3] else "; wf_scenario false"), **where))
+        if pid == "C15" and not m[3]:
+            out["violations"].append(dict(kind="generator-params", property=pid, failing_input_found=True,
+                                          signature=None, what="generated scenario is not well formed (wf_scenario "
+                                          "of the model is false)", **where))
         if pid == "C16":
             solv_cmds.append([15, m[1]])
             solv_meta.append((where, sc, sd))
@@ -330,9 +379,12 @@ def run(ctx, spec):
     # ---- C14: reproducibility in-process and across processes / hash seeds
     if pid == "C14":
         jobs = []
-        for name, p in psets[:sizes["c14_sets"]]:
-            for s in seeds[:2]:
+        for name, p in ([x for x in psets if x[0].startswith("random")] + psets)[:sizes["c14_sets"]]:
+            for s in (range(sizes.get("seeds_small", 2)) if p["num_hosts"] <= 10 else seeds[:2]):
                 jobs.append(dict(kind="gen", params=p, seed=s))
+        for name in ("small-gen", "medium-gen", "large-gen"):
+            for s in range(8, 8 + sizes.get("seeds_small", 2)):
+                jobs.append(dict(kind="bench", name=name, seed=s))
         for name in list(bench)[:6]:
             jobs.append(dict(kind="bench", name=name, seed=3))
             jobs.append(dict(kind="traj", name=name, seed=5, steps=sizes["traj_steps"], modes=[rng.randrange(2), 1, rng.randrange(2)]))
@@ -343,6 +395,10 @@ def run(ctx, spec):
         for hs in sizes["hashseeds"]:
             runs[f"PYTHONHASHSEED={hs}"] = sub_fingerprints(jobs, hs)
             out["evaluations"] += len(jobs)
+        # a fresh process with the jobs in REVERSE order: results must not depend on what the
+        # process generated before
+        runs["reverse-order, fresh process"] = list(reversed(sub_fingerprints(list(reversed(jobs)), 0)))
+        out["evaluations"] += len(jobs)
         for label, fps in runs.items():
             for job, a, b in zip(jobs, base, fps):
                 if a != b:
@@ -384,6 +440,7 @@ def run(ctx, spec):
                    "scenario, all draws consumed; distinct = distinct generated scenarios")
     out["correspondence"] = dict(**stats, in_kernel_crosscheck=dict(commands=len(small), differing=0))
     unknown = [v for v in out["violations"] if v.get("signature") is None]
+    unknown.sort(key=lambda v: not v.get("failing_input_found"))      # concrete failing inputs first
     known = [v for v in out["violations"] if v.get("signature") is not None]
     seen, k2 = set(), []
     for v in known:
